@@ -68,7 +68,7 @@ func genOpts(r *rand.Rand) *neat.Options {
 	if o.DisjointCoeff == 0 && o.ExcessCoeff == 0 && o.MutdiffCoeff == 0 {
 		o.MutdiffCoeff = 0.4
 	}
-	o.CompatThreshold = pick(r, 0.05, 0.3, 1.0, 3.0, 6.0, 1e6)
+	o.CompatThreshold = pick(r, 0.05, 0.3, 1.0, 3.0, 6.0, 1e6, 1e-8)
 	o.AgeSignificance = 1 + r.Float64()*pick(r, 0.0, 1.0, 2.0, -0.75) // (below one: the young are held back instead of boosted)
 	o.SurvivalThresh = pick(r, 0.01, 0.1, 0.2, 0.5, 0.9, 1.0, r.Float64()*0.99+0.01)
 	o.MutateOnlyProb = r.Float64()
@@ -263,6 +263,10 @@ func buildGenome(r *rand.Rand, sp genomeSpec, id int) *genetics.Genome {
 		for j := range t.Params {
 			if r.Intn(3) == 0 {
 				t.Params[j] = fbits(math.Round(r.Float64()*1000) / 1000)
+				if sp.IdGaps && r.Intn(2) == 0 {
+					// (a hand-built genome may carry negative trait parameters; only the trait mutation lifts them to zero)
+					t.Params[j] = fbits(-math.Round(r.Float64()*1000)/1000 + 0)
+				}
 			}
 		}
 		s.Traits = append(s.Traits, t)
@@ -278,6 +282,9 @@ func buildGenome(r *rand.Rand, sp genomeSpec, id int) *genetics.Genome {
 		nextId++
 		if sp.IdGaps {
 			nextId += r.Intn(4) * r.Intn(4)
+			if r.Intn(12) == 0 {
+				nextId += pick(r, 30000, 32768, 65536, 1<<20) // (node ids are ints; a population that split very many genes is far up)
+			}
 		}
 	}
 	if sp.IdGaps {
@@ -434,6 +441,15 @@ func startGenome(r *rand.Rand, o *neat.Options) (*genetics.Genome, string) {
 			}
 		}
 		src += "+heavy-weights"
+	}
+	if r.Intn(10) == 0 && len(g.ControlGenes) == 0 {
+		// innovation numbers are int64: a start genome taken from a population that has issued very many of them (or written
+		// elsewhere) carries numbers beyond 2^53, which no float64 holds exactly
+		base := pick(r, int64(1)<<53, int64(1)<<62)
+		for _, gn := range g.Genes {
+			gn.InnovationNum += base
+		}
+		src += "+huge-innovation-numbers"
 	}
 	return g, src
 }
